@@ -115,6 +115,30 @@ func (c26) NewRun(plan *simrt.Source, job *harn.Job) harn.Run {
 		fp.Link = plan.Chance(120)
 		r.files = append(r.files, fp)
 	}
+	if plan.Chance(250) {
+		// neighbours whose names extend a source's name: another source (f0.go ->
+		// f0.gox, f0.gop) and files the command has no business with (editor
+		// backups). None of them may be lost or damaged at any crash point.
+		base := r.files[plan.Draw(len(r.files))]
+		if !base.Link && strings.HasSuffix(base.Rel, ".go") {
+			nonce := 500 + plan.Draw(50)
+			for _, k := range []int{0, 1, 2, 3} {
+				if !plan.Chance(500) {
+					continue
+				}
+				switch k {
+				case 0:
+					r.files = append(r.files, filePlan{Rel: base.Rel + "x", Kind: "unformatted", Mode: 0644, Src: fmt.Sprintf(goxUnformatted[plan.Draw(len(goxUnformatted))], nonce)})
+				case 1:
+					r.files = append(r.files, filePlan{Rel: base.Rel + "p", Kind: "unformatted", Mode: 0640, Src: fmt.Sprintf(xgoUnformatted[plan.Draw(len(xgoUnformatted))], nonce)})
+				case 2:
+					r.files = append(r.files, filePlan{Rel: base.Rel + "~", Kind: "bystander", Mode: 0644, Src: fmt.Sprintf("editor backup %d\n", nonce)})
+				case 3:
+					r.files = append(r.files, filePlan{Rel: base.Rel + ".orig", Kind: "bystander", Mode: 0600, Src: fmt.Sprintf("kept by a merge tool %d\n", nonce)})
+				}
+			}
+		}
+	}
 	if plan.Chance(150) {
 		// a relative symbolic link to a sibling, and a file of the same name in the
 		// directory the command is started from
@@ -142,7 +166,9 @@ func (c26) NewRun(plan *simrt.Source, job *harn.Job) harn.Run {
 		r.args = []string{"./..."}
 	case 2:
 		for _, f := range r.files {
-			r.args = append(r.args, f.Rel)
+			if f.Kind != "bystander" {
+				r.args = append(r.args, f.Rel)
+			}
 		}
 	}
 	r.inject = plan.Chance(500)
